@@ -783,7 +783,9 @@ class TableEvaluator:
         # (`for msg in (connect_v2, connect_v1): self.send_message(msg)`)
         is_dispatch = any(isinstance(e, ast.Attribute) and isinstance(e.value, ast.Name) and e.value.id == "self" and e.attr in methods for e in cells)
         is_locals = not isinstance(loop.target, ast.Tuple) and 2 <= len(cells) <= 4 and all(isinstance(e, ast.Name) for e in cells)
-        if not (is_dispatch or is_locals):
+        # `for table in (self.aliases, self.struct_defs, self.message_defs):` - a fixed sequence of the object's own tables
+        is_attrs = not isinstance(loop.target, ast.Tuple) and 2 <= len(cells) <= 6 and all(isinstance(e, ast.Attribute) and isinstance(e.value, ast.Name) and e.value.id == "self" for e in cells)
+        if not (is_dispatch or is_locals or is_attrs):
             return None
         names = {t.id for t in (loop.target.elts if isinstance(loop.target, ast.Tuple) else [loop.target])}
         for b in loop.body:
@@ -841,7 +843,7 @@ def propagate_new_constants(tree: ast.Module, modname: str) -> int:
             if isinstance(x, ast.Name):
                 names_assigned[x.id] = names_assigned.get(x.id, 0) + 1
                 lv = _literal_value(st.value)
-                if lv is not None and f"={x.id}" not in known and isinstance(lv, ast.Tuple):
+                if lv is not None and f"={x.id}" not in known and (isinstance(lv, ast.Tuple) or (isinstance(lv, ast.Constant) and isinstance(lv.value, (int, float, str, bytes)) and not isinstance(lv.value, bool))):
                     mod_consts[x.id] = lv
     mod_consts = {k: v for k, v in mod_consts.items() if names_assigned.get(k) == 1}
     # a module constant is only propagated where no local of the same name exists
@@ -877,3 +879,49 @@ def propagate_new_constants(tree: ast.Module, modname: str) -> int:
     if count:
         ast.fix_missing_locations(tree)
     return count
+
+
+def expand_new_properties(trees: Dict[str, ast.Module]) -> List[str]:
+    """`x.short_hash` where short_hash is a @property added after the rules were written, whose whole body is
+    `return <expr over self>`, and whose name is unique in the program: replaced by that expression with self := x."""
+    kf = known_functions()
+    if not kf:
+        return []
+    props: Dict[str, List[ast.expr]] = {}
+    all_attr_names: Dict[str, int] = {}
+    for mod, t in trees.items():
+        known = kf.get(mod, set())
+        for cls in [c for c in ast.walk(t) if isinstance(c, ast.ClassDef)]:
+            for m in cls.body:
+                if isinstance(m, ast.FunctionDef):
+                    all_attr_names[m.name] = all_attr_names.get(m.name, 0) + 1
+                    if f"{cls.name}.{m.name}" in known or [ast.unparse(d) for d in m.decorator_list] != ["property"]:
+                        continue
+                    body = [b for b in m.body if not (isinstance(b, ast.Expr) and isinstance(b.value, ast.Constant) and isinstance(b.value.value, str))]
+                    if len(body) == 1 and isinstance(body[0], ast.Return) and body[0].value is not None and len(m.args.args) == 1:
+                        # the expression may only mention self (and literals / builtins)
+                        names = {n.id for n in ast.walk(body[0].value) if isinstance(n, ast.Name)}
+                        if names <= {m.args.args[0].arg, "len", "int", "str", "min", "max", "sum", "bool"}:
+                            props.setdefault(m.name, []).append((m.args.args[0].arg, body[0].value))
+    # same-named properties on several classes are fine when they have the same body (e.g. MDF.short_hash and SDF.short_hash)
+    usable = {}
+    for k, v in props.items():
+        if len({ast.unparse(e) for _, e in v}) == 1 and all_attr_names.get(k, 0) == len(v):
+            usable[k] = v[0]
+    if not usable:
+        return []
+    done = []
+
+    class P(ast.NodeTransformer):
+        def visit_Attribute(self, n):
+            self.generic_visit(n)
+            if isinstance(n.ctx, ast.Load) and n.attr in usable and _simple(n.value):
+                selfname, expr = usable[n.attr]
+                done.append(n.attr)
+                return ast.copy_location(_Rename({}, {selfname: n.value}).visit(copy.deepcopy(expr)), n)
+            return n
+
+    for t in trees.values():
+        P().visit(t)
+        ast.fix_missing_locations(t)
+    return sorted(set(done))
